@@ -11,6 +11,11 @@ CHECKS = {
           "Generated histories of add/delete/commit/rollback/compact/reopen over 1-3 writer handles and both storages are executed against the real index and against an in-memory reference model; a fresh reader's match_all must equal the model after every check point. Exploration, not proof: it samples the history space (thousands of histories per run) and shrinks any failure to a minimal op list.",
           "Trusted: the reference store model (harness/src/model.rs), serde_json, proptest. In-memory storage is driven with one live handle at a time.",
           "DESIGN.md §5 C04"),
+  "C07": ("exploration",
+          "property-based testing against a three-valued reference query matcher over the raw JSON documents",
+          "Random schemas (analyzer menu: default/whitespace/unicode, stopwords, stemming, synonyms), corpora committed over 1-4 segments with upserts and deletions, and query trees over every node type (plus request-level fuzzy and default fields) are run with execution=bm25 and a limit above the corpus size; the hit-id set must lie between the reference matcher's must-match and may-match sets. Per corpus the closed-form family term(field, word) is checked for every word of every indexed value, for plain analyzers against an independent tokenisation.",
+          "Trusted: the crate's analyzers (tokens), harness/src/qmodel.rs + fmodel.rs (documented semantics), regex crate. Undocumented shapes are don't-care or not generated (see assumptions in the evidence). One listed known finding is excluded by predicate and counted.",
+          "DESIGN.md §5 C07"),
   "C08": ("exploration",
           "property-based testing against a reference filter evaluator over the raw JSON documents",
           "Random schemas with fast keyword/i64/f64 fields and nested objects up to three levels, documents with arrays of parent objects holding child arrays, and And/Or/Not/Nested filter trees (sibling Nested on one path, Nested inside Nested, dotted paths, type-mismatched clauses). Each filter is run through request.filter, bool.filter and constant_score.filter and the hit-id set must equal the harness's independent evaluator of the documented semantics.",
